@@ -71,8 +71,14 @@ def parseStep (s : String) : Option BodyStep :=
 def parseBody (s : String) : Option (List BodyStep) :=
   if s == "-" then some [] else (s.splitOn ",").mapM parseStep
 
-def parseStmt (s : String) : Option Stmt :=
+def parseStmt (colls : List Shape) (s : String) : Option Stmt :=
   match s.splitOn ":" with
+  | ["trynew", k, e] =>
+    let kind := match k with | "B" => some 0 | "F" => some 1 | "T" => some 2 | _ => none
+    kind.bind fun kind =>
+      match parseExpr colls e.toList with
+      | some (sh, []) => some (.tryNew kind sh)
+      | _ => none
   | ["get"] => some .get
   | ["dropkey"] => some .dropKey
   | ["forgetkey"] => some .forgetKey
@@ -135,7 +141,7 @@ def parseCase (line : String) : Option Case :=
     let addr ← (if a.isEmpty then some [] else (a.splitOn ",").mapM (·.toNat?))
     let colls ← parseColls (← field "C=" c)
     let held := (← field "H=" h).toList
-    let prog ← (words (← field "P=" p)).mapM parseStmt
+    let prog ← (words (← field "P=" p)).mapM (parseStmt colls)
     let script ← (words (← field "S=" s)).mapM parseDecision
     pure { id := id, n := n, addr := addr, colls := colls, held := held, prog := prog,
            script := script, np := maxPoisonL colls }
